@@ -5,10 +5,13 @@ from vflib import gluechecks
 def run(tier, only=None):
     q = []
     # (the history starts from an arbitrary reachable offset / fitting state, so H counts the calls after that)
-    hs = [(1, 5), (1, 16)] if tier == "quick" else [(1, 3), (1, 5), (1, 16), (2, 5), (2, 16), (3, 5)]
+    hs = [(1, 5), (1, 3), (2, 5)] if tier == "quick" else [(1, 3), (1, 5), (1, 16), (2, 5), (2, 16), (3, 5)]
+    quick = tier == "quick"
     for h, c in hs:
+        # per-change tier: one line per program and a 32-byte buffer (a failing call is a failing line; the final call
+        # needs one instruction to show a wrong chunk setting, mode or offset)
         q.append({"name": "c15.history.h%d.c%d" % (h, c), "cfile": "glue_c07.c",
-                  "defs": ["-DMODE_C15", "-DH=%d" % h, "-DKMAX=2", "-DNPROG=%d" % (h + 1), "-DGBUF=48", "-DLMAX=4", "-DCMAX=64",
+                  "defs": ["-DMODE_C15", "-DH=%d" % h, "-DKMAX=%d" % (1 if quick else 2), "-DNPROG=%d" % (h + 1), "-DGBUF=%d" % (32 if quick else 48), "-DLMAX=4", "-DCMAX=64",
                            "-DCFIX=%d" % c, "-DCFIX2=%d" % (3 if c != 3 else 7)], "unwindset": {"nop_padding.1": (c - 1) // 11 + 2},
                   "timeout": 800 if tier == "quick" else 5400})
     return gluechecks.run_queries(
